@@ -208,11 +208,89 @@ def number_to_string(R, ctx):
     R.require(rid, "floor:converted", decided >= 8, ctx.where(fn), "%d of %d doubles are converted" % (decided, n))
 
 
+def arithmetic(R, ctx, rid="C08.arith"):
+    """Folded arithmetic is IEEE double arithmetic with C's pow / floor, as Lua and Luau compute it."""
+    import math
+    import struct
+    from .. import peval, floatfmt
+    from ..peval import Enum, make
+    from . import c13
+    lib = ctx.lib
+    R.rule(rid, "Evaluator::evaluate on `a <op> b` for two number literals, evaluated from its typed tree (doubles as IEEE doubles, `powf` as C's "
+                "pow, casts with Rust's saturation) for op in + - * / // % ^ and every pair out of a table of doubles (zeros of both signs, "
+                "small and huge integers, fractions, exponents beyond the 32-bit range, infinities): the result is either unknown (the "
+                "evaluator declines) or bit for bit the double Lua computes (a+b, a-b, a*b, a/b, floor(a/b), a-floor(a/b)*b, pow(a,b)); "
+                "NaN results are compared as NaN")
+    fn = lib.fn(EV + "::evaluate")
+    BIN = "nodes::expressions::binary::BinaryExpression"
+    BOP = "nodes::expressions::binary::BinaryOperator"
+    if not R.require(rid, "anchor:evaluate", fn is not None and BIN in lib.adts and BOP in lib.adts, "", "Evaluator::evaluate / BinaryExpression not found"):
+        return
+    vals = [0.0, -0.0, 1.0, -1.0, 2.0, -2.0, 3.0, 0.5, -0.5, 0.1, 1.5, -7.5, 10.0, 123.456, 1.0000001, 5.0, 53.0, 1e15, 9007199254740993.0, 3000000000.0, -3000000000.0,
+            2147483648.0, 1e300, 1e-300, math.inf, -math.inf]
+    ops = {"Plus": lambda a, b: a + b, "Minus": lambda a, b: a - b, "Asterisk": lambda a, b: a * b,
+           "Slash": lambda a, b: fdiv(a, b), "DoubleSlash": lambda a, b: ffloor(fdiv(a, b)),
+           "Percent": lambda a, b: a - b * ffloor(fdiv(a, b)), "Caret": lambda a, b: floatfmt.libm("powf", a, b)}
+
+    def fdiv(a, b):
+        if b == 0:
+            if a == 0 or math.isnan(a):
+                return math.nan
+            return math.copysign(math.inf, a) * math.copysign(1.0, b)
+        return a / b
+
+    def ffloor(x):
+        return x if not math.isfinite(x) else float(math.floor(x))
+
+    def mul(a, b):
+        try:
+            return a * b
+        except OverflowError:
+            return math.inf
+
+    def bits(x):
+        return "nan" if math.isnan(x) else struct.pack("<d", x)
+    variants = {v["name"] for v in lib.adts[BOP]["variants"]}
+    n = decided = 0
+    bad = {}
+    for op, ref in ops.items():
+        if op not in variants:
+            R.require(rid, "anchor:operator|%s" % op, False, "", "BinaryOperator::%s not found" % op)
+            continue
+        for a in vals:
+            for b in vals:
+                try:
+                    want = ref(a, b)
+                except OverflowError:
+                    want = math.inf
+                pe = peval.PEval(lib, ctx.an)
+                node = Enum(EXPR, "Binary", {"0": make(lib, BIN, {"operator": Enum(BOP, op), "token": peval.NONE,
+                            "left": Enum(EXPR, "Number", {"0": c13.build_number(lib, ("dec", a, None))}),
+                            "right": Enum(EXPR, "Number", {"0": c13.build_number(lib, ("dec", b, None))})})})
+                try:
+                    r = pe.call_fn(fn, [make(lib, EV), node])
+                except peval.OutOfFuel:
+                    r = None
+                n += 1
+                if isinstance(r, Enum) and r.variant == "Unknown":
+                    continue
+                decided += 1
+                got = r.fields.get("0") if isinstance(r, Enum) and r.variant == "Number" else None
+                if not isinstance(got, float) or bits(got) != bits(want):
+                    bad.setdefault(op, []).append((a, b, want, got if isinstance(got, float) else (repr(r)[:60], pe.unknown_reasons[:2])))
+    for op in ops:
+        b = bad.get(op)
+        R.ob(rid, "evaluate|%s|ieee" % op, not b, ctx.where(fn), "agrees with Lua's arithmetic on every pair" if not b else
+             "%r %s %r: Lua computes %r, the evaluator folds it to %r (%d pairs differ)" % (b[0][0], op, b[0][1], b[0][2], b[0][3], len(b)))
+    R.require(rid, "floor", n >= 4000 and decided >= 3000, ctx.where(fn), "%d (op, a, b) cells, %d folded to a number" % (n, decided))
+
+
 def run(R, ctx):
     lib = ctx.lib
     float_order(R, ctx)
     if_effects(R, ctx)
     number_to_string(R, ctx)
+    arithmetic(R, ctx)
     R.explanation = (
         "Decision tables of the evaluator's match expressions (variant -> constant / recurse), compared with the soundness skeleton an "
         "abstract interpreter of Lua needs: opaque leaves are Unknown, calls are effectful, unknown means 'maybe metatable', multi-value "
